@@ -68,9 +68,19 @@ RowMatches(r, x) == r[1] = x.key /\ r[2] = x.text /\ r[3] = x.ans /\ r[4] = x.to
 (* StickyPto: flagged row with answer "F" and the right key/text after an earlier preprocessing time-out *)
 RowSticky(r, x) == everPto /\ r[1] = x.key /\ r[2] = x.text /\ r[3] = "F" /\ r[5] = TRUE
 
+(* workers that never reported are lost (terminated by the join): WorkerLost is not observable from outside, so the   *)
+(* return event is matched by (WorkerLost for every remaining worker) \cdot CallReturn, written out explicitly            *)
+LostTable == [i \in DOMAIN batch |->
+                IF i \in workers THEN [key |-> batch[i].key, text |-> E.text[batch[i].q], ans |-> "F", to |-> TRUE, pto |-> FALSE]
+                ELSE LET r == CHOOSE r \in {res[k] : k \in DOMAIN res} : r.idx = i
+                     IN  [key |-> r.key, text |-> E.text[r.q], ans |-> r.ans, to |-> r.to, pto |-> FALSE]]
 TReturn ==
     /\ IsEvent("return") /\ UNCHANGED everPto
     /\ \/ BCallReturn(E)
+       \/ /\ pc = "workers" /\ workers # {} /\ qBudget # 0 /\ prep = "done"
+          /\ table' = LostTable
+          /\ workers' = {} /\ pc' = "idle" /\ ncalls' = ncalls + 1
+          /\ UNCHANGED <<prep, batch, multi, res, bvars>>
        \/ \* StickyPto: the code answers nothing once the flag is set
           /\ everPto /\ pc = "answer" /\ res = <<>> /\ prep = "done"
           /\ table' = [i \in DOMAIN batch |-> [key |-> batch[i].key, text |-> E.text[batch[i].q], ans |-> "F", to |-> FALSE, pto |-> TRUE]]
